@@ -3,14 +3,15 @@
 Pattern: a function tests `K in CACHE` / `K not in CACHE` for a module- or class-level dict CACHE and
 stores `CACHE[K] = value`.  Every parameter the function's result depends on must occur in the key
 expression K in a way that determines it: an occurrence only under a lossy projection
-(len(p), type(p), bool(p), p.shape, p.ndim, p.size, p.dtype) -- or no occurrence at all -- while the body
+(len(p), type(p), bool(p), id(p), p.shape, p.ndim, p.size, p.dtype; also element-wise, as in
+`tuple(id(x) for x in p)`) -- or no occurrence at all -- while the body
 uses the parameter itself is a definite defect: a second call with another value of that parameter and the
 same projection returns the first call's result (a multi-call sequence no single-call test can see).
 """
 
 import ast
 
-LOSSY_CALLS = {"len", "type", "bool"}
+LOSSY_CALLS = {"len", "type", "bool", "id"}  # id(): identity says nothing about the content of a mutable object, and ids are reused
 LOSSY_ATTRS = {"shape", "ndim", "size", "dtype"}
 
 
@@ -25,6 +26,10 @@ def _module_dicts(tree):
             for t in st.targets:
                 if isinstance(t, ast.Name):
                     names.add(t.id)
+        if isinstance(st, ast.AnnAssign) and isinstance(st.target, ast.Name) and st.value is not None:
+            v = st.value
+            if (isinstance(v, ast.Dict) and not v.keys) or (isinstance(v, ast.Call) and isinstance(v.func, ast.Name) and v.func.id in ("dict", "OrderedDict") and not v.args):
+                names.add(st.target.id)
     return names
 
 
@@ -56,6 +61,16 @@ def _occurrences(expr, param):
     for n in ast.walk(expr):
         if isinstance(n, ast.Name) and n.id == param:
             par = parents.get(n)
+            if isinstance(par, ast.comprehension) and par.iter is n and isinstance(par.target, ast.Name):
+                # element-wise use: (f(x) for x in param) determines param only as far as f determines x
+                comp = parents.get(par)
+                elt_nodes = [getattr(comp, "elt", None), getattr(comp, "key", None), getattr(comp, "value", None)]
+                inner = []
+                for e in elt_nodes:
+                    if e is not None:
+                        inner += _occurrences(e, par.target.id)
+                out.append("full" if "full" in inner else "lossy")
+                continue
             if isinstance(par, ast.Call) and isinstance(par.func, ast.Name) and par.func.id in LOSSY_CALLS and n in par.args:
                 out.append("lossy")
             elif isinstance(par, ast.Attribute) and par.attr in LOSSY_ATTRS:
@@ -90,12 +105,26 @@ def scan_module(tree):
             return
         n_caches += 1
         params = [a.arg for a in fn.args.args + fn.args.kwonlyargs if a.arg not in ("self", "cls")]
+        parents_fn = {}
+        for q_ in ast.walk(fn):
+            for c_ in ast.iter_child_nodes(q_):
+                parents_fn[c_] = q_
         for test, cn, key in tests:
+            # parameters fixed by an enclosing condition (`if rand_key is None:` around the look-up) need not be in the key
+            fixed = set()
+            up = parents_fn.get(test)
+            while up is not None and up is not fn:
+                if isinstance(up, (ast.If, ast.While, ast.IfExp)):
+                    fixed |= {x.id for x in ast.walk(up.test) if isinstance(x, ast.Name)}
+                up = parents_fn.get(up)
             kexpr = key
             key_nodes = [key]
-            if isinstance(key, ast.Name) and key.id in assigns and len(assigns[key.id]) == 1:
-                kexpr = assigns[key.id][0]
-                key_nodes.append(kexpr)
+            if isinstance(key, ast.Name) and key.id in assigns:
+                # `key = None` placeholders aside, the key must have one defining expression
+                cands = [v for v in assigns[key.id] if not (isinstance(v, ast.Constant) and v.value is None)]
+                if len(cands) == 1:
+                    kexpr = cands[0]
+                    key_nodes.append(kexpr)
             in_key = set()
             for kn in key_nodes:
                 in_key.update(id(x) for x in ast.walk(kn))
@@ -118,6 +147,8 @@ def scan_module(tree):
                             body_occ.append("full")
                 if "full" not in body_occ:
                     continue  # the result can depend on the parameter at most through the projection
+                if not occ and p in fixed:
+                    continue
                 if not occ:
                     found.append((qual, test.lineno, "the memo key `%s` of cache %s ignores parameter `%s`, which the function uses: a later call with another %s gets a stale result" % (ast.unparse(kexpr)[:70], cn, p, p)))
                 elif "full" not in occ:
